@@ -1,8 +1,8 @@
 import FiberModel.Basic
 /-
 C04 — model of route registration through apps / groups / `Route(path)` registers and of mounting
-(`app.Use(prefix, subApp)`), transcribed from the code that exists in /repo *after* the three
-`fix:` commits recorded in known/C04.json:
+(`app.Use(prefix, subApp)`), transcribed from the code that exists in /repo *after* the
+`fix:` commits recorded in known/C04.json (F1–F5):
 
   helpers.go  getGroupPath                      ↔ getGroupPath
   router.go   register (path normalisation)     ↔ rawOf / prettyOf / cleanOf / mkRoute
@@ -12,14 +12,20 @@ C04 — model of route registration through apps / groups / `Route(path)` regist
   register.go Registering.Add/All/Route         ↔ a group whose items all have the empty path
                                                    (`Registering{path}` registers at exactly `path`;
                                                     `.Route(p)` nests with getGroupPath) — see Driver
-  mount.go    App.mount / Group.mount           ↔ mountPath + regMount (placeholder per method)
-  mount.go    processSubAppsRoutes              ↔ splice (clone, prefix with the placeholder's Path,
-                                                   put at the placeholder's position) + renumber (pos)
+  mount.go    App.mount / Group.mount           ↔ mountPath + regMount (placeholder per method; its
+                                                   group keeps the prefix as given, untrimmed)
+  mount.go    processSubAppsRoutes              ↔ splice (clone, prefix the clone's `pathOrig` with the
+                                                   placeholder group's Prefix, put at the placeholder's
+                                                   position) + renumber (pos)
+
+`Route.pathOrig` (F5): the path as handed to `register`, before "" becomes "/" and the leading slash
+is added. `addPrefixToRoute` prefixes from it, `addRoute` does not merge "" with "/".
 
 The route-pattern parser belongs to C02/C03. Here it is opaque: `Params` is `po raw` for a
 parameter `po : Bytes → List Bytes` (in the driver: the table the harness obtained from an
 independent plain registration of the same path), and `routeParser` is represented by the string
-it was parsed from (`Route.pretty`).
+it was parsed from: `parseRouteWritten(pathPretty, pathRaw[:len(pathPretty)])` (`Route.pretty`,
+`Route.written`).
 
 Stacks are kept newest-first while registering (`addRoute` looks at the last route of the stack)
 and reversed by `finish`.
@@ -56,6 +62,11 @@ def prettyOf (cfg : Cfg) (raw : Bytes) : Bytes :=
   let l := if cfg.caseSensitive then raw else toLower raw
   if !cfg.strict && l.length > 1 then trimRight l 47 else l
 
+/-- `pathRaw[:len(pathPretty)]`: the pattern as written, without the trailing slashes the
+configuration makes insignificant (`register` / `addPrefixToRoute` hand it to `parseRouteWritten`,
+which reads the text of the parameter constraints from it) -/
+def writtenOf (cfg : Cfg) (raw : Bytes) : Bytes := raw.take (prettyOf cfg raw).length
+
 /-- `pathClean = RemoveEscapeChar(pathPretty)` -/
 def cleanOf (cfg : Cfg) (raw : Bytes) : Bytes := removeEscape (prettyOf cfg raw)
 
@@ -64,7 +75,9 @@ structure Route where
   star : Bool
   root : Bool
   raw : Bytes            -- Route.Path
-  pretty : Bytes         -- the string `routeParser` was parsed from
+  orig : Bytes           -- Route.pathOrig (the path as handed to `register`)
+  pretty : Bytes         -- the (prettified) pattern `routeParser` was parsed from …
+  written : Bytes        -- … and the pattern as written, cut to its length: the text of the constraints
   path : Bytes           -- Route.path
   params : List Bytes    -- Route.Params
   handlers : List Nat    -- Route.Handlers (ids)
@@ -75,21 +88,25 @@ structure Route where
 def mkRoute (cfg : Cfg) (po : Bytes → List Bytes) (use : Bool) (p : Bytes) (hs : List Nat) : Route :=
   let raw := rawOf p
   { use := use, star := prettyOf cfg raw == [47, 42], root := cleanOf cfg raw == [47],
-    raw := raw, pretty := prettyOf cfg raw, path := cleanOf cfg raw, params := po raw,
+    raw := raw, orig := p, pretty := prettyOf cfg raw, written := writtenOf cfg raw, path := cleanOf cfg raw, params := po raw,
     handlers := hs, pos := 0 }
 
-/-- router.go `copyRoute` + `addPrefixToRoute` (as repaired: Params recomputed from the prefixed
-path, root/star derived from it, prefix = the placeholder's `Path` as registered) -/
+/-- router.go `copyRoute` + `addPrefixToRoute` (as repaired: the route's `pathOrig` is prefixed the
+way a group prefixes a path — an empty path stays the prefix itself — and the result normalised as
+`register` does; Params recomputed from the prefixed path, root/star derived from it; `pre` = the
+placeholder group's `Prefix`, i.e. the mount prefix as given) -/
 def addPrefix (cfg : Cfg) (po : Bytes → List Bytes) (pre : Bytes) (r : Route) : Route :=
-  let raw := getGroupPath pre r.raw
-  { r with raw := raw, pretty := prettyOf cfg raw, path := cleanOf cfg raw, params := po raw,
+  let o := getGroupPath pre r.orig
+  let raw := rawOf o
+  { r with raw := raw, orig := o, pretty := prettyOf cfg raw, written := writtenOf cfg raw, path := cleanOf cfg raw, params := po raw,
            root := cleanOf cfg raw == [47], star := prettyOf cfg raw == [47, 42] }
 
 /-- an element of `app.stack[m]` before startup: a route, or the placeholder of a mounted app
-(`Route.mount = true`, `Route.group.app` = the sub-app, here: its finished stacks) -/
+(`Route.mount = true`; `raw` = its `Path`, `pre` = `Route.group.Prefix` = the mount prefix as given,
+`Route.group.app` = the sub-app, here: its finished stacks) -/
 inductive Slot where
   | route (r : Route)
-  | mount (raw : Bytes) (sub : Nat → List Route)
+  | mount (raw : Bytes) (pre : Bytes) (sub : Nat → List Route)
 
 structure St where
   stacks : Nat → List Slot     -- newest first
@@ -99,11 +116,12 @@ structure St where
 def St.init : St := { stacks := fun _ => [], count := 0, mounted := false }
 
 /-- router.go `addRoute` on one stack: merge into the previous route when it has the same `Path`
-and `use` and neither is a mount placeholder, else take the next position and append -/
+and `use`, both or neither were registered with the empty path, and neither is a mount placeholder,
+else take the next position and append -/
 def pushRoute (l : List Slot) (r : Route) (count : Nat) : List Slot × Nat :=
   match l with
   | .route p :: t =>
-    if p.raw = r.raw ∧ p.use = r.use then (.route { p with handlers := p.handlers ++ r.handlers } :: t, count)
+    if p.raw = r.raw ∧ (p.orig == []) = (r.orig == []) ∧ p.use = r.use then (.route { p with handlers := p.handlers ++ r.handlers } :: t, count)
     else (.route { r with pos := count + 1 } :: l, count + 1)
   | _ => (.route { r with pos := count + 1 } :: l, count + 1)
 
@@ -117,14 +135,15 @@ def regMany (ms : List Nat) (r : Route) (st : St) : St := ms.foldl (fun st m => 
 def allMethods : List Nat := List.range nMethods
 
 /-- the placeholder of `mount`: `register([USE], prefix, mountGroup)` — never merged -/
-def addMount (m : Nat) (raw : Bytes) (sub : Nat → List Route) (st : St) : St :=
-  { st with stacks := fun k => if k = m then .mount raw sub :: st.stacks m else st.stacks k,
+def addMount (m : Nat) (raw pre : Bytes) (sub : Nat → List Route) (st : St) : St :=
+  { st with stacks := fun k => if k = m then .mount raw pre sub :: st.stacks m else st.stacks k,
             count := st.count + 1 }
 
-def regMount (raw : Bytes) (sub : Nat → List Route) (st : St) : St :=
-  { allMethods.foldl (fun st m => addMount m raw sub st) st with mounted := true }
+def regMount (raw pre : Bytes) (sub : Nat → List Route) (st : St) : St :=
+  { allMethods.foldl (fun st m => addMount m raw pre sub st) st with mounted := true }
 
-/-- mount.go `mount`: `prefix = TrimRight(prefix,'/'); if prefix == "" { prefix = "/" }` -/
+/-- mount.go `mount`: `prefix = TrimRight(prefix,'/'); if prefix == "" { prefix = "/" }` (the
+placeholder's path and the `appList` key; the placeholder's group keeps the untrimmed prefix) -/
 def mountPath (full : Bytes) : Bytes :=
   let t := trimRight full 47
   if t = [] then [47] else t
@@ -137,11 +156,11 @@ def regPath (gp : Option Bytes) (p : Bytes) : Bytes :=
   | some g => getGroupPath g p
 
 /-- processSubAppsRoutes, one stack: placeholders are replaced, in place, by the sub-app's
-routes of the same method, cloned and prefixed with the placeholder's Path -/
+routes of the same method, cloned and prefixed with the placeholder group's Prefix -/
 def splice (cfg : Cfg) (po : Bytes → List Bytes) (m : Nat) : List Slot → List Route
   | [] => []
   | .route r :: t => r :: splice cfg po m t
-  | .mount raw sub :: t => (sub m).map (addPrefix cfg po raw) ++ splice cfg po m t
+  | .mount _ pre sub :: t => (sub m).map (addPrefix cfg po pre) ++ splice cfg po m t
 
 /-- `routePos++; route.pos = routePos` -/
 def renum : Nat → List Route → List Route
@@ -175,7 +194,7 @@ def buildItem (cfg : Cfg) (po : Bytes → List Bytes) (gp : Option Bytes) : Item
     buildItems cfg po (some np) items st
   | .mount pre scfg sub, st =>
     let sst := buildItems scfg po none sub St.init
-    regMount (rawOf (mountPath (regPath gp pre))) (finish scfg po sst) st
+    regMount (rawOf (mountPath (regPath gp pre))) (regPath gp pre) (finish scfg po sst) st
 def buildItems (cfg : Cfg) (po : Bytes → List Bytes) (gp : Option Bytes) : List Item → St → St
   | [], st => st
   | i :: is, st => buildItems cfg po gp is (buildItem cfg po gp i st)
